@@ -167,3 +167,39 @@ def register_wfa(reg):
         notes="ghost L12 is declared below",
     ))
     reg.by_key[(REALIGN, "wfa_alignment")].ghost["L12"] = LINE
+
+
+# ---- the drain loops of realign_gaf: everything collected is written, smallest priority first -------------------------------------------
+# abstract view of queue.PriorityQueue: `queue` = its content sorted by priority (the physical heap order is observable only through len()
+# and get(), so any order of the abstract list is a valid abstraction; the sorted one makes get() a pop-front)
+PQ = ObjT("PriorityQueue", queue=ListT(PA))
+
+
+def register_drain(reg):
+    reg.add(Contract(
+        file="(assumed)/priorityqueue.py", func="PriorityQueue.get", params=dict(self=PQ), returns=PA, trusted=True, modifies=["self"],
+        requires=["len(self.queue) > 0"],
+        ensures={"smallest-first": "same(result, old(self).queue[0])",
+                 "removed": "len(self.queue) == len(old(self).queue) - 1 and forall(lambda i: implies(0 <= i < len(self.queue), same(self.queue[i], old(self).queue[i + 1])))"},
+        notes="environment contract (queue.PriorityQueue, single consumer): get() on a non-empty queue returns and removes the smallest item; "
+              "get() on an EMPTY queue blocks for ever, hence the precondition (a proof obligation at every call)",
+    ))
+    for occ, name in ((0, "#drain-full-groups"), (1, "#drain-leftover")):
+        reg.add(Contract(
+            file=REALIGN, func="realign_gaf", variant=name, fragment=("queue_len = len(p_queue.queue)", 2, occ),
+            params=dict(p_queue=PQ, output=ListT(STR)), modifies=["p_queue", "output"], locals=dict(queue_len=INT),
+            requires=["forall(lambda i, j: implies(0 <= i < j < len(p_queue.queue), p_queue.queue[i].priority <= p_queue.queue[j].priority))"],
+            loops={1: Loop(index="it1", fingerprint="for _ in range(", invariant={
+                "count": "queue_len == len(old(p_queue).queue) and len(p_queue.queue) == queue_len - it1 and len(output) == len(old(output)) + it1",
+                "remaining-are-the-tail": "forall(lambda i: implies(0 <= i < len(p_queue.queue), same(p_queue.queue[i], old(p_queue).queue[it1 + i])))",
+                "written-are-the-head-in-priority-order": "forall(lambda k: implies(0 <= k < it1, output[len(old(output)) + k] == old(p_queue).queue[k].seq))",
+                "earlier-output-kept": "forall(lambda k: implies(0 <= k < len(old(output)), output[k] == old(output)[k]))",
+            })},
+            ensures={
+                "queue-emptied": "len(p_queue.queue) == 0",
+                "every-collected-result-written-once-smallest-priority-first":
+                    "len(output) == len(old(output)) + len(old(p_queue).queue) and "
+                    "forall(lambda k: implies(0 <= k < len(old(p_queue).queue), output[len(old(output)) + k] == old(p_queue).queue[k].seq))",
+                "earlier-output-kept": "forall(lambda k: implies(0 <= k < len(old(output)), output[k] == old(output)[k]))",
+            },
+        ))
